@@ -1,4 +1,5 @@
 use std::{
+    io::ErrorKind,
     path::{Path, PathBuf},
     env::current_dir, sync::OnceLock, fs::ReadDir,
     ffi::OsStr, os::unix::ffi::OsStrExt,
@@ -27,12 +28,21 @@ pub(crate) fn get_backup_path(file: &Path) -> Result<PathBuf> {
 }
 
 pub(crate) fn needs_backup(file: &Path, conf: &Config) -> Result<bool> {
+    // Only a file is moved aside for the new one. A directory in the
+    // way is left for the open that follows to refuse, as it is
+    // without backups: renaming it would take everything below it
+    // (the source itself, if it lives there) out of its place.
+    let replaceable = match file.metadata() {
+        Ok(m) => !m.is_dir(),
+        Err(e) if e.kind() == ErrorKind::NotFound => false,
+        Err(e) => return Err(e.into()),
+    };
     let need = match conf.backup {
         Backup::None => false,
-        Backup::Auto if file.try_exists()? => {
+        Backup::Auto if replaceable => {
             has_backup(file)?
         }
-        Backup::Numbered if file.try_exists()? => true,
+        Backup::Numbered if replaceable => true,
         _ => false,
     };
     Ok(need)
